@@ -246,6 +246,10 @@ func (e *kvElection) Start(ctx context.Context) error {
 	if e.ctx != nil && e.isLeader.Load() && e.becomeFollowerLocked() {
 		go e.runOnDemote("context_cancelled")
 	}
+	// A watch loop of the previous run that is still on its way out (waiting
+	// for a store answer) belongs to a dead context; Stop and StopWithContext
+	// clear the flag themselves, a cancelled Start context does not.
+	e.watcherRunning.Store(false)
 
 	e.ctx, e.cancel = context.WithCancel(ctx)
 	ctxCopy := e.ctx
